@@ -202,7 +202,14 @@ VI(root, S0, v, D) ==
                        \* (C04, built values) the member count is checked when a value is read, not by Validate
                        /\ \/ "Dev_PropertyCountNotInValidate" \in D
                           \/ (("Dev_DroppedMembersCounted" \in D /\ S0.addl.k = "addl_true") \/ Len(v.m) >= S0.minP) /\ (S0.maxP # NONE => Len(v.m) <= S0.maxP)
-    [] S0.k = "allOf" -> \A i \in 1..Len(S0.ss) : VI(root, S0.ss[i], v, D)
+    \* allOf branches are merged into one type: a name one branch lists under `required` and
+    \* another branch declares IS enforced (whatever Dev_RequiredUndeclaredNotEnforced says about
+    \* names no branch declares)
+    [] S0.k = "allOf" -> /\ \A i \in 1..Len(S0.ss) : VI(root, S0.ss[i], v, D)
+                         /\ LET objs == {i \in 1..Len(S0.ss) : Deref(S0.ss[i]).k = "obj"}
+                                declared == UNION {PropNames(Deref(S0.ss[i])) : i \in objs} IN
+                            v.t = "obj" => \A i \in objs : \A j \in 1..Len(Deref(S0.ss[i]).props) :
+                               LET q == Deref(S0.ss[i]).props[j] IN (q.req /\ ~q.decl /\ q.name \in declared) => q.name \in Names(v.m)
     [] S0.k = "anyOf" -> \E i \in 1..Len(S0.ss) : VI(root, S0.ss[i], v, D)
     [] S0.k = "oneOf" -> LET exact == Cardinality({i \in 1..Len(S0.ss) : VI(root, S0.ss[i], v, D)}) = 1
                              \* members only variant i declares
@@ -276,6 +283,9 @@ SumSchemas == {OneOf(<<AnyStr, AnyInt>>),
                Obj(<<P("a", AnyStr, FALSE), PH("c")>>, AT, 0, NONE), Obj(<<PH("b")>>, AT, 0, NONE), OneOf(<<Str(2, NONE, ""), IntS(10, NONE, FALSE, FALSE, NONE), Bool>>), OneOf(<<ObjA, ObjB>>), OneOf(<<AnyStr, Arr(AnyInt, 0, NONE, FALSE)>>),
                AnyOf(<<AnyStr, AnyInt>>), AnyOf(<<Str(0, 1, ""), AnyNum>>), OneOf(<<ObjA, AnyStr>>), Nullable(OneOf(<<AnyStr, AnyInt>>)),
                AllOf(<<Obj(<<P("a", AnyStr, TRUE)>>, AT, 0, NONE), Obj(<<P("b", AnyInt, TRUE)>>, AT, 0, NONE)>>),
+               \* `required` in one branch, the declaration in another (Base + {required: [a]})
+               AllOf(<<Obj(<<P("a", AnyStr, FALSE), P("b", AnyInt, FALSE)>>, AT, 0, NONE), Obj(<<PH("a")>>, AT, 0, NONE)>>),
+               AllOf(<<Obj(<<PH("b")>>, AT, 0, NONE), Obj(<<P("a", AnyStr, FALSE)>>, AT, 0, NONE), Obj(<<P("b", AnyInt, FALSE)>>, AT, 0, NONE)>>),
                AllOf(<<Obj(<<P("a", AnyStr, TRUE)>>, AT, 0, NONE), Obj(<<P("b", AnyInt, FALSE), P("c", Bool, TRUE)>>, AT, 0, NONE)>>)}
 \* required-mask byte boundaries: 9 and 17 properties, the last one required
 Letters == <<"a", "b", "c", "d", "e", "f", "g", "h", "i", "j", "k", "l", "m", "n", "o", "p", "q">>
